@@ -6,6 +6,10 @@ import RisorModel.Generated.C12
 Line-protocol front end of the C12 model (requests after the leading `C12` field).
 
   hist <events> <path> <op>   events: comma-separated `N:<o>` `R:<c>` `C:<c>` `K` `U` `O:<o>:<c>`
+                              `E:<o>:<c>` (risor.EvalCode/Eval + WithVM, WithOS(o) unless `-`),
+                              `L:<o>:<c>` (risor.Call + WithVM: top-level code, then entry()),
+                              `F:<c>` (the host fires entry() through the kept clone-call function
+                              with a context of its own that carries `<c>`)
                               (`<o>`,`<c>`: `-` or a letter A.. naming a host OS object);
                               path: `-` or letters, outermost first: c b t d (call), s g m (spawn),
                               k (clone-call), i (import + call of a module function), I (module body)
@@ -72,6 +76,15 @@ def parseEv (s : String) : Option Ev :=
     match parseOS o, parseOS c with
     | some (some o), some c => some (.runWith o c)
     | _, _ => none
+  | ["E", o, c] =>
+    match parseOS o, parseOS c with
+    | some o, some c => some (.evalWith o c)
+    | _, _ => none
+  | ["L", o, c] =>
+    match parseOS o, parseOS c with
+    | some o, some c => some (.apiCall o c)
+    | _, _ => none
+  | ["F", c] => (parseOS c).map Ev.callback
   | _ => none
 
 def wrap1 (ch : Char) (p : Prog) : Option Prog :=
